@@ -550,7 +550,7 @@ def run(ctx):
                                           {norm(expand_aliases(c.func, al10).body), norm(expand_aliases(c.func, al10).orelse)} <= set(concrete)) for c in calls10)
             ctx.check(ok10, "R1.10", f"{q10.split('fieldtypes.')[1]}:return {norm(v)[:40]}", f"`return {norm(v)[:60]}` does not construct one of {concrete}: the generic class chooses the "
                       "flavour from the reading host, not from the stored tag", rt, f"returns {concrete[0]}(...) or {concrete[1]}(...)", key=f"R1.10:{q10.split('fieldtypes.')[1]}:flavour-from-host")
-    ctx.floor("R1.10", "returns of flavoured decoders", n10, 3)
+    ctx.floor("R1.10", "returns of flavoured decoders", n10, 2)
 
     # ------------------------------------------------------------------ R1.11 (sibling rule) every descriptor frame is registered
     ctx.import_rule("C03", "R3.5", "R1.11", "a record is decoded only if its descriptor frame was registered: readers register every descriptor frame unconditionally")
